@@ -2,20 +2,54 @@
    no Read of the model ever ends with RPanic ("the Go code panics here") or RStuck (a loop of
    the model ran out of fuel).
 
-   Main theorem: erun_no_panic (at the end of the file).  It has two explicit hypotheses, both
-   defined in EngineSafetyHeader.v and both statements about the model only:
+   Main theorem: erun_no_panic (at the end of the file):
+
+     LongCodesFit -> HeaderRestartMonotone ->
+     forall bufsize chunks term reads,
+       bufsize <= 90000 -> src_total chunks <= 262141 ->
+       Forall (Forall (fun b => b < 256)) chunks ->
+       Forall (fun br => snd br <> RPanic /\ snd br <> RStuck) (erun bufsize chunks term reads).
+
+   Hypotheses (Props defined in EngineSafetyHeader.v, both statements about the model only; see
+   EngineSafetyLongFit.v / EngineSafetyRestart.v for what is proved of them):
      LongCodesFit           the long-code groups of an accepted literal/length code fit
-                            longCodeLookup[1264] (encodeLongCodes does not report an overflow);
-     HeaderRestartMonotone  re-parsing a block header from the staging buffer consumes at least
-                            the staged bytes.
-   Side conditions: bufsize <= 90000 (the fuel of the block loop, 262144 iterations, is compared
-   with the bits of one bufio buffer) and the source delivers at most 262000 bytes in total (the
-   fuel of Read's loop is compared with the number of source bytes).  No condition on the byte
-   values, on the chunking, on the sizes of the Read buffers; bufsize may be below 16 (NewReader
-   raises it to 16). *)
+                            longCodeLookup[1264]: encodeLongCodes never reports an index out of
+                            range (the table-size claim inherited from ISA-L);
+     HeaderRestartMonotone  when a block header is re-parsed from the 328-byte staging buffer plus
+                            new input, the attempt loads at least the staged bytes, and if it
+                            succeeds it has consumed all their bits (this is what makes
+                            `input[read:]` and the `held` bookkeeping of step safe).
+   Side conditions, both needed because of the fuel of the MODEL (not of the Go code):
+     bufsize <= 90000            decomp_loop has 262144 iterations of fuel and every block costs at
+                                 least 3 bits of one bufio buffer; witness of RStuck without it:
+                                 bufsize 500000 and 300000 empty fixed blocks in one chunk;
+     src_total chunks <= 262141  Read's loop has 262144 iterations of fuel and every step that
+                                 neither fails nor produces output consumes a source byte; witness
+                                 of RStuck without it: 53000 empty stored blocks (265000 bytes)
+                                 delivered one byte at a time.
+   The source delivers bytes (values < 256): needed by HeaderRestartMonotone only (with a value
+   >= 256 the 64-bit load `le64`, an arithmetic sum, and the byte-wise load, a bitwise or, fill
+   the bit buffer differently, and a re-parsed header can then differ from the failed attempt:
+   EngineSafetyRestartCex.v).  No condition on the chunking, on the sizes of the Read buffers
+   (0 and huge are fine), on the terminal; bufsize may be below 16 (NewReader raises it to 16).
+
+   Structure (bottom-up, one file per layer, all Qed, no axioms):
+     EngineSafetyBase    arrays, forN/iterN invariant rules, machine integers, bit fields
+     EngineSafetyBuf     item 1: bufio layer (buf_inv; bfill/bPeek/bDiscard total, source bytes
+                         conserved, recorded error never ErrBufferFull)
+     EngineSafetyBits    item 2: bit buffer (br_inv, br_ok; load_raw/load_lt57/load_le15 total)
+     EngineSafetyInv     table-entry invariants, static tables satisfy them, histograms
+     EngineSafetySmall   setCodes, gen_small (GenerateForHeader / genForDists), codeLenCodes
+     EngineSafetyRL      readLitDistLens (no index panic, fuel, exact histograms)
+     EngineSafetyExpand  setAndExpandLitLenHuffCode (counting sort: litlen_sorted)
+     EngineSafetyLitLen  genForLitLen (singles/pairs/triples/long codes), given long_groups_fit
+     EngineSafetyDecode  decodeLiteralBlock, decodeHuffman (window, roll-back, overflow carry, fuel)
+     EngineSafetyHeader  setupDynamicHeader, prepareForLitBlock, tryDecodeHeader, readHeader
+     EngineSafety        decomp_loop, decomperss, step, Read, erun (this file) *)
 From Verif Require Import Engine EngineTables.
 From Verif Require Import Base EngineSafetyBase EngineSafetyBits EngineSafetyBuf EngineSafetyInv
   EngineSafetyDecode EngineSafetyHeader.
+From Verif Require Import EngineSafetySuffix.
 From Coq Require Import List NArith ZArith Bool Lia ZifyBool ZifyNat ZifyN.
 Import ListNotations.
 Open Scope N_scope.
@@ -44,7 +78,7 @@ Definition wmeasure (s : inflate) : Z :=
 
 Definition loop_post (s : inflate) (idx : N) (s' : inflate) (idx' : N) (e : ierr) : Prop :=
   e <> EPanic /\ e <> EFuel /\
-  (isError e = false -> inf_inv s' /\ phase_run s' /\ (owed s' <= owed s)%Z) /\
+  (isError e = false -> inf_inv s' /\ phase_run s' /\ (owed s' <= owed s)%Z /\ in_bytes s') /\
   idx <= idx' /\ idx' <= outLen /\
   (e = ENone -> phase s' = phaseStreamEnd) /\
   (e = EEndInput -> r_inlen (rd s') = 0) /\
@@ -76,10 +110,10 @@ Qed.
 Lemma decomp_loop_spec : LongCodesFit -> HeaderRestartMonotone ->
   forall fuel s out idx s' out' idx' e,
   decomp_loop fuel s out idx = (s', out', idx', e) ->
-  inf_inv s -> phase_run s -> idx <= outLen -> (wmeasure s < 3 * Z.of_nat fuel)%Z ->
+  inf_inv s -> in_bytes s -> phase_run s -> idx <= outLen -> (wmeasure s < 3 * Z.of_nat fuel)%Z ->
   loop_post s idx s' idx' e.
 Proof.
-  intros HLF HRM. induction fuel as [|fuel IH]; intros s out idx s' out' idx' e H Hinv Hph Hidx Hm.
+  intros HLF HRM. induction fuel as [|fuel IH]; intros s out idx s' out' idx' e H Hinv Hby Hph Hidx Hm.
   { exfalso. pose proof (inf_inv_hmeasure_nonneg s Hinv). unfold wmeasure in Hm.
     destruct ((phase s =? phaseLitBlock) || (phase s =? phaseHeaderDecoded)); lia. }
   cbn [decomp_loop] in H.
@@ -87,7 +121,7 @@ Proof.
   { apply pair_equal_spec in H. destruct H as [H He]. apply pair_equal_spec in H. destruct H as [H Hi].
     apply pair_equal_spec in H. destruct H as [Hs Ho]. subst s' out' idx' e.
     unfold loop_post. split; [discriminate|]. split; [discriminate|].
-    split; [intros _; split; [exact Hinv|split; [exact Hph|lia]]|]. split; [lia|]. split; [exact Hidx|].
+    split; [intros _; split; [exact Hinv|split; [exact Hph|split; [lia|exact Hby]]]|]. split; [lia|]. split; [exact Hidx|].
     split; [intros _; lia|]. split; [intros Hc; discriminate|]. split; [intros Hc; discriminate|].
     destruct Hinv as ((B1 & B2 & B3) & L & _). split; [lia|]. split; [lia|]. split; [exact B2|].
     split; reflexivity. }
@@ -95,7 +129,7 @@ Proof.
   assert (Hhdr : exists s1 e1,
             (if (phase s =? phaseNewBlock) || (phase s =? phaseDecodingHeader) then readHeader s else (s, ENone)) = (s1, e1) /\
             (e1 = ENone \/ e1 = EEndInput \/ e1 = EInvalidBlock) /\
-            (e1 <> EInvalidBlock -> inf_inv s1 /\ (owed s1 <= owed s)%Z) /\
+            (e1 <> EInvalidBlock -> inf_inv s1 /\ (owed s1 <= owed s)%Z /\ in_bytes s1) /\
             (e1 = ENone -> (phase s1 = phaseLitBlock \/ phase s1 = phaseHeaderDecoded) /\
                            (hmeasure s1 + 3 <= wmeasure s)%Z) /\
             (e1 = EEndInput -> r_inlen (rd s1) = 0 /\ phase s1 = phaseDecodingHeader) /\
@@ -103,7 +137,7 @@ Proof.
             inputNil s1 = inputNil s /\ roffset s1 = roffset s).
   { destruct ((phase s =? phaseNewBlock) || (phase s =? phaseDecodingHeader)) eqn:Ehd.
     - destruct (readHeader s) as [s1 e1] eqn:ERH. exists s1, e1. split; [reflexivity|].
-      destruct (readHeader_spec s s1 e1 HLF HRM ERH Hinv) as (R1 & R2 & R3 & R4 & R5 & R6 & R7 & R8 & R9 & R10).
+      destruct (readHeader_spec s s1 e1 HLF HRM ERH Hinv Hby) as (R1 & R2 & R3 & R4 & R5 & R6 & R7 & R8 & R9 & R10).
       split; [exact R1|]. split; [exact R2|].
       split.
       { intros He. destruct (R3 He) as (A & B). split; [exact A|]. unfold wmeasure.
@@ -112,7 +146,7 @@ Proof.
         lia. }
       split; [exact R4|]. split; [exact R5|]. split; [exact R6|]. split; [exact R7|]. split; [exact R8|exact R10].
     - exists s, ENone. split; [reflexivity|]. split; [left; reflexivity|].
-      split; [intros _; split; [exact Hinv|lia]|].
+      split; [intros _; split; [exact Hinv|split; [lia|exact Hby]]|].
       assert (Hp23 : phase s = phaseLitBlock \/ phase s = phaseHeaderDecoded).
       { unfold phase_run in Hph.
         unfold phaseNewBlock, phaseDecodingHeader, phaseLitBlock, phaseHeaderDecoded, phaseStreamEnd in *. lia. }
@@ -128,9 +162,9 @@ Proof.
   2:{ (* EEndInput from the header *)
     apply pair_equal_spec in H. destruct H as [H He]. apply pair_equal_spec in H. destruct H as [H Hi].
     apply pair_equal_spec in H. destruct H as [Hs Ho]. subst s' out' idx' e.
-    destruct (H2 ltac:(discriminate)) as (A & B). destruct (H4 eq_refl) as (C & D).
+    destruct (H2 ltac:(discriminate)) as (A & B & Bb). destruct (H4 eq_refl) as (C & D).
     unfold loop_post. split; [discriminate|]. split; [discriminate|].
-    split; [intros _; split; [exact A|split; [unfold phase_run; rewrite D; unfold phaseDecodingHeader; lia|exact B]]|].
+    split; [intros _; split; [exact A|split; [unfold phase_run; rewrite D; unfold phaseDecodingHeader; lia|split; [exact B|exact Bb]]]|].
     split; [lia|]. split; [exact Hidx|]. split; [intros Hc; discriminate|]. split; [intros _; exact C|].
     split; [intros Hc; discriminate|]. split; [exact H5|]. split; [exact H6|]. split; [exact H7|].
     split; assumption. }
@@ -143,7 +177,7 @@ Proof.
     split; [intros Hc; discriminate|]. split; [exact H5|]. split; [exact H6|]. split; [exact H7|].
     split; assumption. }
   (* the header is there *)
-  destruct (H2 ltac:(discriminate)) as (Hinv1 & Howed1). destruct (H3 eq_refl) as (Hp1 & Hm1).
+  destruct (H2 ltac:(discriminate)) as (Hinv1 & Howed1 & Hby1). destruct (H3 eq_refl) as (Hp1 & Hm1).
   assert (Hnd1 : phase s1 <> phaseDecodingHeader).
   { unfold phaseLitBlock, phaseHeaderDecoded, phaseDecodingHeader in *. lia. }
   pose proof Hinv1 as (J1 & J2 & J3 & J4 & J5 & J6 & J7 & J8 & J9).
@@ -153,7 +187,7 @@ Proof.
             (if phase s1 =? phaseLitBlock then decodeLiteralBlock s1 out idx else decodeHuffman s1 out idx)
               = (s2, out2, idx2, e2) /\
             e2 <> EPanic /\ e2 <> EFuel /\ e2 <> EInvalidBlock /\
-            inf_inv s2 /\ phase_run s2 /\ (owed s2 <= owed s1)%Z /\ (hmeasure s2 <= hmeasure s1)%Z /\
+            inf_inv s2 /\ in_bytes s2 /\ phase_run s2 /\ (owed s2 <= owed s1)%Z /\ (hmeasure s2 <= hmeasure s1)%Z /\
             idx <= idx2 /\ idx2 <= outLen /\
             (e2 = ENone -> phase s2 = phaseStreamEnd \/ phase s2 = phaseNewBlock) /\
             (e2 = EEndInput -> r_inlen (rd s2) = 0) /\ (e2 = EOutputOverflow -> idx2 = outLen) /\
@@ -172,6 +206,9 @@ Proof.
       { apply (inf_inv_after_decode s1 s2 Hinv1 Hnd1 D2 D3 D19 D15 D17 D18).
         - unfold phaseStreamEnd, phaseNewBlock, phaseLitBlock, phaseDecodingHeader in *. lia.
         - intros _. exact D4. }
+      split.
+      { destruct Hby1 as (Y1 & Y2). split; [|rewrite D18; exact Y2].
+        apply (in_suffix_Forall _ (r_in (rd s1))); [exact (decodeLiteralBlock_suffix _ _ _ _ _ _ _ ED)|exact Y1]. }
       split; [unfold phase_run; unfold phaseStreamEnd, phaseNewBlock, phaseLitBlock in *; lia|].
       split; [unfold owed; apply owed_mono; assumption|].
       split; [unfold hmeasure; rewrite D17; lia|].
@@ -190,6 +227,9 @@ Proof.
       { apply (inf_inv_after_decode s1 s2 Hinv1 Hnd1 D4 D5 D20 D15 D18 D19).
         - unfold phaseStreamEnd, phaseNewBlock, phaseHeaderDecoded, phaseDecodingHeader in *. lia.
         - intros Hc. exfalso. unfold phaseStreamEnd, phaseNewBlock, phaseHeaderDecoded, phaseLitBlock in *. lia. }
+      split.
+      { destruct Hby1 as (Y1 & Y2). split; [|rewrite D19; exact Y2].
+        apply (in_suffix_Forall _ (r_in (rd s1))); [exact (decodeHuffman_suffix _ _ _ _ _ _ _ ED)|exact Y1]. }
       split; [unfold phase_run; unfold phaseStreamEnd, phaseNewBlock, phaseHeaderDecoded in *; lia|].
       split; [unfold owed; apply owed_mono; assumption|].
       split; [unfold hmeasure; rewrite D18; lia|].
@@ -197,7 +237,7 @@ Proof.
       split.
       { intros He. specialize (D12 He). destruct Hph2 as [Hc|[Hc|Hc]]; [contradiction|left; exact Hc|right; exact Hc]. }
       split; [exact D10|]. split; [exact D11|]. split; [exact D9|]. split; [exact D14|exact D21]. }
-  destruct Hdec as (s2 & out2 & idx2 & e2 & ED & K1 & K2 & K3 & K4 & K5 & K6 & K7 & K8 & K9 & K10 & K11 & K12 & K13 & K14 & K15).
+  destruct Hdec as (s2 & out2 & idx2 & e2 & ED & K1 & K2 & K3 & K4 & K4b & K5 & K6 & K7 & K8 & K9 & K10 & K11 & K12 & K13 & K14 & K15).
   rewrite ED in H.
   assert (Hfin : e2 <> ENone -> (s2, out2, idx2, e2) = (s', out', idx', e) -> loop_post s idx s' idx' e).
   { intros Hne Heq.
@@ -205,7 +245,7 @@ Proof.
     apply pair_equal_spec in Heq. destruct Heq as [Hs Ho]. subst s' out' idx' e.
     pose proof K4 as ((B1 & B2 & B3) & L & _).
     unfold loop_post. split; [exact K1|]. split; [exact K2|].
-    split; [intros _; split; [exact K4|split; [exact K5|lia]]|]. split; [exact K8|]. split; [exact K9|].
+    split; [intros _; split; [exact K4|split; [exact K5|split; [lia|exact K4b]]]|]. split; [exact K8|]. split; [exact K9|].
     split; [intros Hc; contradiction|]. split; [exact K11|]. split; [exact K12|].
     split; [lia|]. split; [lia|]. split; [exact B2|]. split; congruence. }
   destruct e2; try (apply Hfin; [discriminate|exact H]).
@@ -215,10 +255,10 @@ Proof.
     replace ((phase s2 =? phaseLitBlock) || (phase s2 =? phaseHeaderDecoded)) with false
       by (destruct (K10 eq_refl) as [Hc|Hc]; rewrite Hc; reflexivity).
     lia. }
-  specialize (IH s2 out2 idx2 s' out' idx' e H K4 K5 K9 Hm2).
+  specialize (IH s2 out2 idx2 s' out' idx' e H K4 K4b K5 K9 Hm2).
   destruct IH as (L1 & L2 & L3 & L4 & L5 & L6 & L7 & L8 & L9 & L10 & L11 & L12 & L13).
   unfold loop_post. split; [exact L1|]. split; [exact L2|].
-  split; [intros He; destruct (L3 He) as (A & B & C); split; [exact A|split; [exact B|lia]]|].
+  split; [intros He; destruct (L3 He) as (A & B & C & Cb); split; [exact A|split; [exact B|split; [lia|exact Cb]]]|].
   split; [lia|]. split; [exact L5|]. split; [exact L6|]. split; [exact L7|]. split; [exact L8|].
   split; [lia|]. split; [exact L10|]. split; [exact L11|]. split; congruence.
 Qed.
@@ -227,12 +267,13 @@ Qed.
 Definition BUFMAX : N := 90000.
 
 Lemma decomperss_spec : LongCodesFit -> HeaderRestartMonotone -> forall f,
-  inf_inv (state f) -> phase_run (state f) -> writePos f <= outLen ->
+  inf_inv (state f) -> in_bytes (state f) -> phase_run (state f) -> writePos f <= outLen ->
   (hmeasure (state f) <= 8 * Z.of_N BUFMAX + 64 + 8 * 328)%Z ->
   let f' := fst (decomperss f) in
   let e := snd (decomperss f) in
   e <> EPanic /\ e <> EFuel /\
-  (isError e = false -> inf_inv (state f') /\ phase_run (state f') /\ (owed (state f') <= owed (state f))%Z) /\
+  (isError e = false -> inf_inv (state f') /\ phase_run (state f') /\ (owed (state f') <= owed (state f))%Z /\
+                        in_bytes (state f')) /\
   writePos f <= writePos f' /\
   (e = EOutputOverflow -> outLen <= writePos f') /\
   (e = ENone -> phase (state f') = phaseStreamEnd) /\
@@ -243,18 +284,18 @@ Lemma decomperss_spec : LongCodesFit -> HeaderRestartMonotone -> forall f,
   readPos f' = readPos f /\ rBuf f' = rBuf f /\ derr f' = derr f /\ peekSize f' = peekSize f /\
   eof f' = eof f /\ haveBits f' = haveBits f.
 Proof.
-  intros HLF HRM f Hinv Hph Hw Hm. unfold decomperss.
+  intros HLF HRM f Hinv Hby Hph Hw Hm. unfold decomperss.
   destruct (decomp_loop big_fuel (state f) (hist f) (writePos f)) as [[[s h] idx] err] eqn:EL.
   assert (Hwm : (wmeasure (state f) < 3 * Z.of_nat big_fuel)%Z).
   { rewrite big_fuel_Z. unfold wmeasure, BUFMAX in *.
     destruct (((phase (state f) =? phaseLitBlock) || (phase (state f) =? phaseHeaderDecoded))%N); lia. }
-  destruct (decomp_loop_spec HLF HRM big_fuel _ _ _ _ _ _ _ EL Hinv Hph Hw Hwm)
+  destruct (decomp_loop_spec HLF HRM big_fuel _ _ _ _ _ _ _ EL Hinv Hby Hph Hw Hwm)
     as (L1 & L2 & L3 & L4 & L5 & L6 & L7 & L8 & L9 & L10 & L11 & L12 & L13).
   destruct (negb (writeOverflowLen (ov s) =? 0)) eqn:E1;
   destruct (negb (copyOverflowLength (ov _) =? 0)) eqn:E2;
   cbn [fst snd state writePos readPos rBuf derr peekSize eof haveBits];
   (split; [exact L1|]; split; [exact L2|];
-   split; [intros He; destruct (L3 He) as (A & B & C); split; [exact A|split; [exact B|exact C]]|];
+   split; [intros He; destruct (L3 He) as (A & B & C & Cb); split; [exact A|split; [exact B|split; [exact C|exact Cb]]]|];
    split; [lia|]; split; [intros He; specialize (L8 He); lia|];
    split; [exact L6|]; split; [exact L7|]; split; [exact L9|]; split; [exact L10|]; split; [exact L11|];
    split; [exact L12|]; repeat split; reflexivity).
@@ -359,14 +400,16 @@ Definition d_inv (f : decompressor) : Prop :=
   buf_inv (rBuf f) /\ berr_ok (rBuf f) /\ 16 <= bsize (rBuf f) /\ bsize (rBuf f) <= BUFMAX /\
   (inputNil (state f) = true -> (r_len (rd (state f)) / 8 <= Z.of_N (blen (rBuf f)))%Z) /\
   (inputNil (state f) = false ->
-     peekSize f = blen (rBuf f) /\ (owed (state f) <= Z.of_N (peekSize f))%Z).
+     peekSize f = blen (rBuf f) /\ (owed (state f) <= Z.of_N (peekSize f))%Z) /\
+  in_bytes (state f) /\ buf_bytes (rBuf f).
 
 (* the Reader has input in hand *)
 Definition ready (f : decompressor) : Prop :=
   inf_inv (state f) /\ phase_run (state f) /\
   buf_inv (rBuf f) /\ berr_ok (rBuf f) /\ 16 <= bsize (rBuf f) /\ bsize (rBuf f) <= BUFMAX /\
   inputNil (state f) = false /\ peekSize f = blen (rBuf f) /\
-  (owed (state f) <= Z.of_N (peekSize f))%Z.
+  (owed (state f) <= Z.of_N (peekSize f))%Z /\
+  in_bytes (state f) /\ buf_bytes (rBuf f).
 
 (* the Reader has used up everything it was given and must read from the source *)
 Definition hungry (f : decompressor) : Prop :=
@@ -385,6 +428,11 @@ Proof.
   split; [exact I7|]. split; [exact I8|exact I9].
 Qed.
 
+Lemma in_bytes_set_input : forall s l n v,
+  in_bytes s -> bytes_ok l ->
+  in_bytes (set_inputNil (set_rd s (br_set_in (rd s) l n)) v).
+Proof. intros s l n v (A & B) Hl. split; [exact Hl|exact B]. Qed.
+
 Lemma step_in_spec : forall f,
   d_inv f -> phase (state f) <> phaseFinish ->
   let f1 := fst (step_in f) in
@@ -395,7 +443,7 @@ Lemma step_in_spec : forall f,
      haveBits f1 = haveBits f /\ hist f1 = hist f /\
      srcT f1 <= srcT f /\ (hungry f -> srcT f1 < srcT f \/ eof f1 = true)).
 Proof.
-  intros f (Dinf & Dph & Dbuf & Dberr & Db16 & Dbmax & Dnil & Dnn) Hnf.
+  intros f (Dinf & Dph & Dbuf & Dberr & Db16 & Dbmax & Dnil & Dnn & Dby & Dbb) Hnf.
   assert (Hrun : phase_run (state f)) by (unfold phase_run, phaseFinish in *; lia).
   unfold step_in.
   destruct (inputNil (state f)) eqn:Enil.
@@ -436,34 +484,38 @@ Proof.
         buf_inv (rBuf (fst r0)) /\ berr_ok (rBuf (fst r0)) /\ bsize (rBuf (fst r0)) = bsize (rBuf f) /\
         blen (rBuf f) <= blen (rBuf (fst r0)) /\
         src_total (chunks (rBuf (fst r0))) + blen (rBuf (fst r0)) = src_total (chunks (rBuf f)) + blen (rBuf f) /\
-        (hungry f -> held + 1 <= blen (rBuf (fst r0)) \/ eof (fst r0) = true))).
+        (hungry f -> held + 1 <= blen (rBuf (fst r0)) \/ eof (fst r0) = true) /\
+        buf_bytes (rBuf (fst r0)))).
   { intros r0 Hr0.
     destruct ((blen (rBuf f) <=? held) && negb (haveBits f)) eqn:Ec.
     - destruct (bPeek_safe2 (rBuf f) (held + 1) Dbuf Dberr ltac:(lia) ltac:(lia))
         as (bytes & k & e & rb & P1 & P2 & P3 & P4 & P5 & P6 & P7 & P8 & P9 & P10).
       rewrite P1 in Hr0.
+      destruct (bPeek_bytes _ _ _ _ _ _ P1 Dbb) as (_ & Pbb).
       destruct e as [[| | |]|]; subst r0; cbn [fst snd state writePos readPos hist derr haveBits rBuf eof].
       + split; [discriminate|]. split; [discriminate|]. intros _.
         repeat (split; [reflexivity|]). split; [exact P2|]. split; [exact P3|]. split; [exact P4|].
-        split; [exact P7|]. split; [exact P8|]. intros _. right. reflexivity.
+        split; [exact P7|]. split; [exact P8|]. split; [intros _; right; reflexivity|exact Pbb].
       + split; [discriminate|]. split; [discriminate|]. intros Hc; discriminate.
       + split; [discriminate|]. split; [discriminate|]. intros Hc; discriminate.
       + exfalso. apply P10. reflexivity.
       + split; [discriminate|]. split; [discriminate|]. intros _.
         repeat (split; [reflexivity|]). split; [exact P2|]. split; [exact P3|]. split; [exact P4|].
-        split; [exact P7|]. split; [exact P8|]. intros _. left. apply P9. reflexivity.
+        split; [exact P7|]. split; [exact P8|]. split; [intros _; left; apply P9; reflexivity|exact Pbb].
     - subst r0. cbn [fst snd state writePos readPos hist derr haveBits rBuf eof].
       split; [discriminate|]. split; [discriminate|]. intros _.
       repeat (split; [reflexivity|]). split; [exact Dbuf|]. split; [exact Dberr|]. split; [reflexivity|].
       split; [lia|]. split; [reflexivity|].
+      split; [|exact Dbb].
       intros (_ & Hh2 & Hh3). exfalso. rewrite Hh2 in Ec. cbn [negb] in Ec. lia. }
   match goal with |- context [match ?X with pair _ _ => _ end] =>
     match X with context [bPeek] => set (r0 := X) end end.
   specialize (Hr0 r0 eq_refl). destruct r0 as [f0 [e0|]].
   { cbn [fst snd] in *. destruct Hr0 as (A1 & A2 & _). split; [exact A1|]. split; [exact A2|]. intros Hc; discriminate. }
   cbn [fst snd] in Hr0. destruct Hr0 as (_ & _ & Hr0). specialize (Hr0 eq_refl).
-  destruct Hr0 as (S1 & S2 & S3 & S4 & S5 & S6 & S7 & S8 & S9 & S10 & S11 & S12).
+  destruct Hr0 as (S1 & S2 & S3 & S4 & S5 & S6 & S7 & S8 & S9 & S10 & S11 & S12 & S13).
   destruct (bPeek_buffered (rBuf f0) S7) as (bytes & PB1 & PB2). unfold bBuffered. rewrite PB1.
+  destruct (bPeek_bytes _ _ _ _ _ _ PB1 S13) as (Pby & _).
   destruct (blen (rBuf f0) <? held) eqn:Elt; [lia|].
   cbn [fst snd]. split; [discriminate|]. split; [discriminate|]. intros _.
   cbn [state writePos readPos hist derr haveBits rBuf eof peekSize].
@@ -472,7 +524,8 @@ Proof.
     split; [apply inf_inv_set_input; [exact Dinf|rewrite skipn_length; lia]|].
     split; [exact Hrun|]. split; [exact S7|]. split; [exact S8|]. split; [lia|]. split; [lia|].
     split; [reflexivity|]. split; [reflexivity|].
-    unfold owed; cbn. lia. }
+    split; [unfold owed; cbn; lia|].
+    split; [apply in_bytes_set_input; [exact Dby|apply bytes_ok_skipn; exact Pby]|exact S13]. }
   split; [exact S2|]. split; [exact S3|]. split; [exact S5|]. split; [exact S6|]. split; [exact S4|].
   unfold srcT; cbn [rBuf]. split; [lia|].
   intros Hh. destruct (S12 Hh) as [Hc|Hc]; [left|right; exact Hc].
@@ -504,7 +557,7 @@ Lemma step_discard_ok : forall f,
     (r_len (rd (state f)) / 8 <= Z.of_N (blen (rBuf f')))%Z /\
     (r_inlen (rd (state f)) = 0 -> (Z.of_N (blen (rBuf f')) <= r_len (rd (state f)) / 8)%Z) /\
     writePos f' = writePos f /\ readPos f' = readPos f /\ derr f' = derr f /\
-    haveBits f' = haveBits f /\ eof f' = eof f.
+    haveBits f' = haveBits f /\ eof f' = eof f /\ (buf_bytes (rBuf f) -> buf_bytes (rBuf f')).
 Proof.
   intros f Hb Hok Hp Hl Ho. unfold step_discard. unfold owed in Ho.
   rewrite (Z.quot_div_nonneg (r_len (rd (state f))) 8) by lia.
@@ -516,12 +569,12 @@ Proof.
     cbn [state rBuf writePos readPos derr haveBits eof set_state].
     split; [reflexivity|]. split; [exact D2|]. split; [exact D3|]. split; [exact D4|]. split; [exact D6|].
     split; [unfold ds in *; lia|]. split; [intros Hz; unfold ds in *; lia|].
-    repeat split; reflexivity.
+    do 5 (split; [reflexivity|]). intros Hbb. exact (bDiscard_bytes _ _ _ _ D1 Hbb).
   - eexists. split; [reflexivity|].
     cbn [state rBuf writePos readPos derr haveBits eof set_state].
     split; [reflexivity|]. split; [exact Hb|]. split; [exact Hok|]. split; [reflexivity|]. split; [reflexivity|].
     split; [unfold ds in *; lia|]. split; [intros Hz; unfold ds in *; lia|].
-    repeat split; reflexivity.
+    do 5 (split; [reflexivity|]). intros Hbb. exact Hbb.
 Qed.
 
 Lemma inf_inv_finish_phase : forall s,
@@ -556,7 +609,7 @@ Lemma step_out_spec : LongCodesFit -> HeaderRestartMonotone -> forall f,
      d_inv f' /\ srcT f' <= srcT f /\
      (writePos f' <= readPos f' -> hungry f' /\ eof f = false)).
 Proof.
-  intros HLF HRM f (Rinf & Rrun & Rbuf & Rberr & R16 & Rmax & Rnil & Rpk & Rowed).
+  intros HLF HRM f (Rinf & Rrun & Rbuf & Rberr & R16 & Rmax & Rnil & Rpk & Rowed & Rby & Rbb).
   unfold step_out.
   (* the window slide *)
   set (wp1 := if historySize * 2 <=? writePos f then historySize else writePos f).
@@ -577,7 +630,7 @@ Proof.
   { unfold f2; cbn [state]. unfold hmeasure, avail. unfold owed in Rowed.
     destruct Rbuf as (_ & Rb2 & _).
     assert (0 <= r_len (rd (state f)) / 8)%Z by (apply Z.div_pos; blia). blia. }
-  pose proof (decomperss_spec HLF HRM f2 Rinf Rrun ltac:(unfold f2; cbn [writePos]; blia) Hm) as DS.
+  pose proof (decomperss_spec HLF HRM f2 Rinf Rby Rrun ltac:(unfold f2; cbn [writePos]; blia) Hm) as DS.
   cbv zeta in DS.
   destruct (decomperss f2) as [f3 e] eqn:ED. cbn [fst snd] in DS.
   destruct DS as (D1 & D2 & D3 & D4 & D5 & D6 & D7 & D8 & D9 & D10 & D11 & D12 & D13 & D14 & D15 & D16 & D17).
@@ -599,6 +652,7 @@ Proof.
   assert (F5nil : inputNil (state f5) = false) by (rewrite F5st; unfold st4, rOffset; cbn [inputNil set_roffset]; congruence).
   assert (F5ph : phase (state f5) = phase (state f3)) by reflexivity.
   assert (F5inf : inf_inv (state f3) -> inf_inv (state f5)) by (intros Hc; exact Hc).
+  assert (F5inb : in_bytes (state f3) -> in_bytes (state f5)) by (intros Hc; exact Hc).
   assert (F5buf_inv : buf_inv (rBuf f5)) by (rewrite F5buf; exact Rbuf).
   assert (F5pkb : peekSize f5 = blen (rBuf f5)) by (rewrite F5pk, F5buf; exact Rpk).
   clearbody f5. clear Hslide. clearbody st4 f2 h1 wp1.
@@ -622,7 +676,7 @@ Proof.
         (split; [discriminate|]; split; [discriminate|]; split; [congruence|]; intros Hc; discriminate). }
   (* no error *)
   assert (Hise : isError e = false) by (destruct (isError e); [discriminate|reflexivity]).
-  destruct (D3 Hise) as (G1 & G2 & G3).
+  destruct (D3 Hise) as (G1 & G2 & G3 & G4).
   assert (Hrl3 : (0 <= r_len (rd (state f3)))%Z) by (destruct G1 as (_ & A & _); exact A).
   assert (Howed5 : (owed (state f5) <= Z.of_N (peekSize f5))%Z).
   { unfold owed. rewrite F5rd, F5pk. unfold owed in G3, Rowed. blia. }
@@ -641,17 +695,18 @@ Proof.
                derr f6 = derr f5 /\ writePos f6 = writePos f3 /\ readPos f6 = wp1 /\
                haveBits f6 = haveBits f5 /\ eof f6 = eof f5 /\ inputNil (state f6) = false /\
                inf_inv (state f6) /\ (phase (state f6) <= 5)%N /\
-               (phase (state f6) = phaseFinish \/ phase (state f6) = phase (state f3))).
+               (phase (state f6) = phaseFinish \/ phase (state f6) = phase (state f3)) /\
+               in_bytes (state f6)).
   { unfold f6. destruct (phase (state f5) =? phaseStreamEnd) eqn:E.
     - cbn [state set_state rBuf peekSize derr writePos readPos haveBits eof set_phase rd inputNil phase].
       split; [exact F5rd|]. do 3 (split; [reflexivity|]). split; [exact F5wp|]. split; [exact F5rp|].
       do 2 (split; [reflexivity|]). split; [exact F5nil|].
       split; [apply (inf_inv_finish_phase (state f5)); [apply F5inf; exact G1|apply N.eqb_eq; exact E]|].
-      split; [unfold phaseFinish; blia|left; reflexivity].
+      split; [unfold phaseFinish; blia|]. split; [left; reflexivity|]. exact (F5inb G4).
     - split; [exact F5rd|]. do 3 (split; [reflexivity|]). split; [exact F5wp|]. split; [exact F5rp|].
       do 2 (split; [reflexivity|]). split; [exact F5nil|]. split; [apply F5inf; exact G1|].
-      rewrite F5ph. unfold phase_run in G2. split; [blia|right; reflexivity]. }
-  destruct F6 as (K1 & K2 & K3 & K4 & K5 & K6 & K7 & K8 & K9 & K10 & K11 & K12).
+      rewrite F5ph. unfold phase_run in G2. split; [blia|]. split; [right; reflexivity|exact (F5inb G4)]. }
+  destruct F6 as (K1 & K2 & K3 & K4 & K5 & K6 & K7 & K8 & K9 & K10 & K11 & K12 & K13).
   assert (Hexp : forall (X : decompressor * option rres),
      X = (if (r_inlen (rd (state f6)) =? 0) || (phase (state f6) =? phaseFinish)
           then match step_discard f6 with
@@ -666,7 +721,7 @@ Proof.
         (writePos (fst X) <= readPos (fst X) -> hungry (fst X) /\ eof f = false))).
   { intros X HX.
     destruct ((r_inlen (rd (state f6)) =? 0) || (phase (state f6) =? phaseFinish)) eqn:Ecnd.
-    - destruct (step_discard_ok f6) as (f7 & SD1 & SD2 & SD3 & SD4 & SD5 & SD6 & SD7 & SD8 & SD9 & SD10 & SD11 & SD12 & SD13).
+    - destruct (step_discard_ok f6) as (f7 & SD1 & SD2 & SD3 & SD4 & SD5 & SD6 & SD7 & SD8 & SD9 & SD10 & SD11 & SD12 & SD13 & SD14).
       { rewrite K2; exact F5buf_inv. } { rewrite K2, F5buf; exact Rberr. } { rewrite K3, K2; exact F5pkb. }
       { rewrite K1; exact Hrl3. } { unfold owed. rewrite K1, K3. unfold owed in Howed5. rewrite F5rd in Howed5. exact Howed5. }
       rewrite SD1 in HX. subst X. cbn [fst snd].
@@ -678,7 +733,8 @@ Proof.
         split; [apply inf_inv_set_input; [exact K10|reflexivity]|].
         split; [exact K11|]. split; [exact SD3|]. split; [exact SD4|].
         split; [rewrite SD5, K2, F5buf; exact R16|]. split; [rewrite SD5, K2, F5buf; exact Rmax|].
-        split; [intros _; exact SD7|]. intros Hc; discriminate. }
+        split; [intros _; exact SD7|]. split; [intros Hc; discriminate|].
+        split; [apply in_bytes_set_input; [exact K13|constructor]|apply SD14; rewrite K2, F5buf; exact Rbb]. }
       split; [unfold srcT; rewrite SD6, K2, F5buf; apply N.le_refl|].
       intros Hq. rewrite SD9, SD10, K5, K6 in Hq.
       (* quiet: e must be EEndInput without eof *)
@@ -699,8 +755,10 @@ Proof.
       { unfold d_inv. split; [exact K10|]. split; [exact K11|]. rewrite K2.
         split; [exact F5buf_inv|]. split; [rewrite F5buf; exact Rberr|].
         split; [rewrite F5buf; exact R16|]. split; [rewrite F5buf; exact Rmax|].
-        split; [intros Hc; congruence|]. intros _. split; [rewrite K3; exact F5pkb|].
-        unfold owed. rewrite K1, K3. unfold owed in Howed5. rewrite F5rd in Howed5. exact Howed5. }
+        split; [intros Hc; congruence|].
+        split; [intros _; split; [rewrite K3; exact F5pkb|];
+                unfold owed; rewrite K1, K3; unfold owed in Howed5; rewrite F5rd in Howed5; exact Howed5|].
+        split; [exact K13|rewrite F5buf; exact Rbb]. }
       split; [unfold srcT; rewrite K2, F5buf; apply N.le_refl|].
       intros Hq. rewrite K5, K6 in Hq. exfalso.
       destruct He3 as [->|[->| ->]].
@@ -873,9 +931,9 @@ Proof.
 Qed.
 
 Lemma newReader_inv : forall bufsize cs t,
-  bufsize <= BUFMAX -> r_inv (src_total cs) (newReader bufsize cs t).
+  bufsize <= BUFMAX -> Forall bytes_ok cs -> r_inv (src_total cs) (newReader bufsize cs t).
 Proof.
-  intros bufsize cs t Hb. unfold r_inv, newReader. cbn [derr].
+  intros bufsize cs t Hb Hcs. unfold r_inv, newReader. cbn [derr].
   split; [intros _|intros e Hc; discriminate].
   split; [|unfold srcT; cbn [rBuf chunks]; lia].
   unfold d_inv. cbn [state rBuf peekSize].
@@ -892,7 +950,9 @@ Proof.
   split; [unfold berr_ok; cbn [berr]; discriminate|].
   cbn [bsize]. split; [lia|]. split; [unfold BUFMAX in *; lia|].
   split; [intros _; unfold inflate0, br0; cbn [rd r_len blen]; reflexivity|].
-  intros Hc. unfold inflate0 in Hc. cbn [inputNil] in Hc. discriminate.
+  split; [intros Hc; unfold inflate0 in Hc; cbn [inputNil] in Hc; discriminate|].
+  split; [unfold in_bytes, inflate0, br0; cbn [rd r_in headerBuffer]; split; constructor|].
+  unfold buf_bytes; cbn [bbuf chunks]. split; [constructor|exact Hcs].
 Qed.
 
 (* ================================================================ main theorem *)
@@ -900,11 +960,12 @@ Theorem erun_no_panic :
   LongCodesFit -> HeaderRestartMonotone ->
   forall bufsize chunks term reads,
     bufsize <= 90000 -> src_total chunks <= 262141 ->
+    Forall (Forall (fun b => b < 256)) chunks ->
     Forall (fun br => snd br <> RPanic /\ snd br <> RStuck) (erun bufsize chunks term reads).
 Proof.
-  intros HLF HRM bufsize cs t reads Hb Hs. unfold erun, erun_ext.
+  intros HLF HRM bufsize cs t reads Hb Hs Hby. unfold erun, erun_ext.
   pose proof (erun_loop_spec HLF HRM (src_total cs) reads (newReader bufsize cs t) []
-                (newReader_inv bufsize cs t Hb) ltac:(lia) (Forall_nil _)) as H.
+                (newReader_inv bufsize cs t Hb Hby) ltac:(lia) (Forall_nil _)) as H.
   destruct (erun_loop (newReader bufsize cs t) reads []) as [l f]. cbn [fst] in *. exact H.
 Qed.
 
